@@ -735,6 +735,39 @@ example :
     (stack exTransport exJoin (some exPatterns) true exReq).1.trace.length = 1 ∧
     (stack exTransport exJoin (some exPatterns) true exReq).1.attempts.length = 2 := by decide
 
+/-! ### the Context's two default stacks as a function of the setting -/
+
+/-- Both flavours are the stack of the theorems above. -/
+theorem contextStack_eq (f : Flavour) (t : Transport) (join : JoinFn)
+    (allowed : Option (List Pattern)) (redirects : Bool) (req : Request) :
+    contextStack f t join allowed redirects req = stack t join allowed redirects req := by
+  cases f <;> cases allowed <;> rfl
+
+/-- `None` ⇒ no allow-list layer; `Some l` ⇒ the layer, for every `l` and both flavours. -/
+theorem contextStack_layer (f : Flavour) (t : Transport) (join : JoinFn) (redirects : Bool)
+    (req : Request) :
+    contextStack f t join none redirects req = redirectResolver (bare t) join redirects req ∧
+    ∀ l, contextStack f t join (some l) redirects req =
+      redirectResolver (restricted (some l) t) join redirects req := by
+  cases f <;> exact ⟨rfl, fun _ => rfl⟩
+
+/-- **`core.allowed_network_hosts = []` blocks all traffic, on the sync and on the async default
+resolver**: whatever the request, the transport and the redirect setting, the request is attempted
+once, never reaches the transport, and the result is `UriDisallowed`. -/
+theorem empty_list_refuses_everything (f : Flavour) (t : Transport) (join : JoinFn)
+    (redirects : Bool) (req : Request) :
+    contextStack f t join (some []) redirects req =
+      ({ attempts := [req], trace := [] }, .error .uriDisallowed) := by
+  rw [contextStack_eq]
+  exact initial_refused t join [] redirects req (empty_list_allows_nothing _)
+
+/-- Every request either flavour hands to the transport matches a configured pattern. -/
+theorem contextStack_only_sees_allowed (f : Flavour) (t : Transport) (join : JoinFn)
+    (ps : List Pattern) (redirects : Bool) (req : Request) :
+    ∀ r ∈ (contextStack f t join (some ps) redirects req).1.trace, ∃ p ∈ ps, MatchesSpec p r.uri := by
+  rw [contextStack_eq]
+  exact transport_only_sees_allowed t join ps redirects req
+
 /-! ### "every request": the request sites of the SDK
 
 The statement quantifies over every HTTP request of the SDK. `transport_only_sees_allowed` covers
